@@ -370,6 +370,9 @@ def restart_cases(draw, tier):
     nr, nq, nz, nv = draw(st.integers(5, 6)), draw(st.integers(6, 7)), draw(st.integers(7, 8)), draw(st.integers(5, 6))
     cfg = sim.base_cfg([nr, nq, nz, nv], draw(st.sampled_from([0.8, 0.0])), draw(st.sampled_from([2.0, 239.8081535])),
                        eps=1e-2, m=draw(st.integers(1, 2)), n=draw(st.integers(-1, 1)), dt=draw(st.sampled_from([1, 2])))
+    ph = draw(sim.phys())
+    if ph:
+        cfg["phys"] = ph
     N = draw(st.integers(1, 3 if tier == "thorough" else 2))
     M = draw(st.integers(1, 3 if tier == "thorough" else 2))
     return {"cfg": cfg, "N": N, "M": M, "saveStep": draw(st.integers(1, 4)), "P1": draw(st.sampled_from([1, 2, 3, 4])),
